@@ -464,12 +464,14 @@ class ScopeVariant(Variant):
 
 def extras(prop, tier, seed):
     from pyvc.report import run_bounded
-    if prop in ("C09", "C14", "C15"):
+    if prop == "C15":
+        return [run_bounded("parser_reset", tier, seed), run_bounded("declarations", tier, seed)]
+    if prop in ("C09", "C14"):
         return [run_bounded("parser_reset", tier, seed)]
     if prop != "C08":
         return []
     return [run_bounded("smtlib_import", tier, seed), run_bounded("smtlib_malformed", tier, seed), run_bounded("parser_reset", tier, seed),
-            run_bounded("annotations", tier, seed)]
+            run_bounded("annotations", tier, seed), run_bounded("declarations", tier, seed)]
 
 
 def variants(world, tier="quick", only=None):
@@ -1041,6 +1043,108 @@ def variants(world, tier="quick", only=None):
             if n == 3 and tier == "quick" and 2 in shape and shape.count(2) > 1:
                 continue
             out.append(AnnotationVariant(world, shape))
+    if only:
+        out = [v for v in out if any(o in v.name for o in only)]
+    return out
+
+
+# ---------------------------------------------------------------------------
+# declarations: (declare-const n S) / (declare-fun n () S) - well-formed, with a stray token before the closing
+# parenthesis, and cut short
+# ---------------------------------------------------------------------------
+class RecordingSymbolCtor(SymbolCtor8):
+    def apply(self, ex, a, kw):
+        ex.ghost.setdefault("symbol_calls", []).append(a[1] if len(a) > 1 else kw.get("name"))
+        return SymbolCtor8.apply(self, ex, a, kw)
+
+
+class DeclareVariant(Variant):
+    """_cmd_declare_const / _cmd_declare_fun on the ghost token stream.  Well-formed: the name resolves to the symbol of that
+    name and of the declared sort afterwards, every other name as before.  Malformed (a stray token where the command must
+    close, or the stream ends): a syntax error, and neither the environment was asked for the symbol nor the name bound -
+    the next script (or the rest of this one, in interactive use) reads as if the command had never been there (C15)."""
+    prop_ids = ("C08", "C15")
+    replay_kind = "parser-declare"
+
+    def __init__(self, world, kind, tail):
+        self.world, self.kind, self.tail = world, kind, tail
+        self.qualname = PARSER + "." + {"declare-const": "_cmd_declare_const", "declare-fun": "_cmd_declare_fun"}[kind]
+        self.name = "declare:%s[%s]" % (kind, tail)
+
+    def setup(self, ex):
+        W = self.world
+        env = core.make_env(ex, W)
+        for c in (RecordingSymbolCtor(), Consume(), ConsumeMaybe(), GetExpression(), ParseType(), FreshSymbol()):
+            c.world = W
+            W.contracts[c.qualname] = c
+        self.dname = z3.Const("declared_name", Str)
+        self.probe = z3.Const("other_name", Str)
+        self.stray = z3.Const("stray_token", Str)
+        ex.assume(z3.Distinct(self.dname, self.probe))
+        for nm in (self.dname, self.probe):
+            ex.assume(z3.And(nm != z3.StringVal("("), nm != z3.StringVal(")")))
+        ex.assume(self.stray != z3.StringVal(")"))
+        self.probev = z3.Const("outer_other", Node)
+        ex.ghost["existing_nodes"] = [self.probev]
+        self.cache = mk_cache(env, [(self.probe, [self.probev])], [])
+        self.parser = parser_obj(ex, W, env, self.cache)
+        g = ex.ghost
+        g["watch"] = [self.dname, self.probe]
+        self.sort = z3.Const("sort0", Ty)
+        from pyvc import spec
+        ex.assume(spec.valid_type(self.sort))
+        ex.assume(z3.Not(Ty.is_FunT(self.sort)))
+        g["sorts"] = [self.sort]
+        toks = [self.dname] + (["(", ")"] if self.kind == "declare-fun" else []) + [Sort(0)]
+        toks += {"closed": [")"], "stray": [self.stray, ")"], "cut": []}[self.tail]
+        g["tokens"] = toks
+        self.tokens = Obj(TOK, {"pos_info": None}, tag="tokens")
+        fi = W.repo.func(self.qualname)
+        return W.wrap_func(fi, fi.module, bound=self.parser), [self.kind, self.tokens], {}
+
+    def resolve(self, ex, nm):
+        W = self.world
+        fi = W.repo.method(CACHE, "get")
+        return W.call(ex, W.wrap_func(fi, fi.module, bound=self.cache), [nm], {}, None)
+
+    def check(self, ex, outcome):
+        kind, r = outcome
+        W = self.world
+        calls = ex.ghost.get("symbol_calls", [])
+        if kind == "raise":
+            now = self.resolve(ex, self.dname)
+            other = self.resolve(ex, self.probe)
+            goals = [("failure:name-not-bound", z3.BoolVal(now is None)),
+                     ("failure:other-names-as-before", (other == self.probev) if is_node(other) else z3.BoolVal(False))]
+            if self.tail == "closed":
+                # only the environment may refuse (a symbol of that name with another sort exists)
+                goals.append(("error-only-when-the-environment-refuses-the-symbol", z3.BoolVal(len(calls) == 1)))
+            else:
+                goals.append(("failure:environment-not-asked-for-the-symbol", z3.BoolVal(len(calls) == 0)))
+            return goals
+        if self.tail != "closed":
+            return [("malformed-command-rejected", z3.BoolVal(False))]
+        v = self.resolve(ex, self.dname)
+        ok = is_node(v)
+        goals = [("name-bound-to-a-term", z3.BoolVal(ok))]
+        if ok:
+            W.unfold(ex, v, S.SYMBOL, 0)
+            goals.append(("bound-to-the-symbol-of-that-name-and-sort",
+                          z3.And(S.op(v) == S.SYMBOL, S.pl_ty(v) == self.sort, S.pl_str(v) == self.dname)))
+        other = self.resolve(ex, self.probe)
+        goals.append(("other-names-as-before", (other == self.probev) if is_node(other) else z3.BoolVal(False)))
+        goals.append(("environment-asked-once", z3.BoolVal(len(calls) == 1)))
+        return goals
+
+
+_base_variants8f = variants
+
+
+def variants(world, tier="quick", only=None):
+    out = _base_variants8f(world, tier, None)
+    for kind in ("declare-const", "declare-fun"):
+        for tail in ("closed", "stray", "cut"):
+            out.append(DeclareVariant(world, kind, tail))
     if only:
         out = [v for v in out if any(o in v.name for o in only)]
     return out
